@@ -317,4 +317,144 @@ theorem toBytes_injective {s t : String} (h : toBytes s = toBytes t) : s = t := 
   rw [ofBytes_toBytes, ofBytes_toBytes] at this
   exact Option.some.inj this
 
+/-! ### ASCII bytes are their own UTF-8 -/
+
+theorem ofNat_val_toNat (b : Nat) (h : b < 128) : (Char.ofNat b).val.toNat = b := by
+  have hv : b.isValidChar := by unfold Nat.isValidChar; omega
+  simp [Char.ofNat, hv, Char.ofNatAux]
+
+theorem utf8Size_ascii (b : Nat) (h : b < 128) : (Char.ofNat b).utf8Size = 1 := by
+  have := ofNat_val_toNat b h
+  unfold Char.utf8Size
+  simp only
+  have h2 : (Char.ofNat b).val ≤ 127 := by
+    rw [UInt32.le_iff_toNat_le]
+    simp [this]; omega
+  rw [if_pos]
+  exact h2
+
+theorem utf8EncodeChar_ascii (b : Nat) (h : b < 128) :
+    String.utf8EncodeChar (Char.ofNat b) = [UInt8.ofNat b] := by
+  rw [String.utf8EncodeChar_eq_singleton (utf8Size_ascii b h)]
+  congr 1
+  apply UInt8.toNat_inj.1
+  rw [UInt32.toNat_toUInt8, ofNat_val_toNat b h]
+  simp
+
+theorem flatMap_utf8EncodeChar_ascii (bs : List Nat) (h : ∀ b ∈ bs, b < 128) :
+    (bs.map Char.ofNat).flatMap String.utf8EncodeChar = bs.map UInt8.ofNat := by
+  induction bs with
+  | nil => rfl
+  | cons b bs ih =>
+    have hb := h b (by simp)
+    have ih' := ih (fun c hc => h c (by simp [hc]))
+    simp [utf8EncodeChar_ascii b hb, ih']
+
+theorem toBytes_asciiString (bs : List Nat) (h : ∀ b ∈ bs, b < 128) : toBytes (asciiString bs) = bs := by
+  unfold toBytes asciiString
+  rw [String.toByteArray_ofList]
+  unfold List.utf8Encode
+  rw [flatMap_utf8EncodeChar_ascii bs h, List.data_toByteArray]
+  simp only [List.map_map]
+  conv => rhs; rw [← List.map_id bs]
+  apply List.map_congr_left
+  intro b hb
+  have := h b hb
+  simp
+  omega
+
+/-! ### What the encoder writes is ASCII -/
+
+theorem hexDigit_ascii (n : Nat) (h : n < 16) : hexDigit n < 128 := by
+  unfold hexDigit
+  split <;> omega
+
+theorem queryEscape_ascii (s : List Nat) (hs : ∀ c ∈ s, c < 256) : ∀ d ∈ queryEscape s, d < 128 := by
+  intro d hd
+  simp only [queryEscape, List.mem_flatMap] at hd
+  obtain ⟨c, hc, hdc⟩ := hd
+  have hc256 := hs c hc
+  unfold escByte at hdc
+  split at hdc
+  · simp at hdc; omega
+  · split at hdc
+    · rename_i hu
+      simp at hdc
+      subst hdc
+      simp [unreserved] at hu
+      omega
+    · simp at hdc
+      rcases hdc with rfl | rfl | rfl
+      · omega
+      · exact hexDigit_ascii _ (by omega)
+      · exact hexDigit_ascii _ (by omega)
+
+theorem encodePairs_ascii (kvs : List (List Nat × List Nat)) (h : ∀ kv ∈ kvs, ValidPair kv) :
+    ∀ d ∈ encodePairs kvs, d < 128 := by
+  induction kvs with
+  | nil => simp [encodePairs]
+  | cons kv rest ih =>
+    have hkv : ValidPair kv := h kv (by simp)
+    have ih' := ih (fun kv' hm => h kv' (by simp [hm]))
+    have hpair : ∀ d ∈ encodePair kv, d < 128 := by
+      intro d hd
+      simp only [encodePair, List.mem_append, List.mem_cons] at hd
+      rcases hd with hd | hd | hd
+      · exact queryEscape_ascii _ hkv.1 d hd
+      · omega
+      · exact queryEscape_ascii _ hkv.2 d hd
+    cases rest with
+    | nil => simpa [encodePairs] using hpair
+    | cons kv' rest' =>
+      intro d hd
+      simp only [encodePairs, List.mem_append, List.mem_cons] at hd
+      rcases hd with hd | hd | hd
+      · exact hpair d hd
+      · omega
+      · exact ih' d (by simpa [encodePairs] using hd)
+
+/-! ## The string-level URL codec and its law -/
+
+def bytePairs (kvs : List (String × String)) : List (List Nat × List Nat) :=
+  kvs.map fun kv => (toBytes kv.1, toBytes kv.2)
+
+/-- What a client writes: `QueryEscape(k)=QueryEscape(v)` joined by `&`. -/
+def goUrlEncode (kvs : List (String × String)) : String := asciiString (encodePairs (bytePairs kvs))
+
+/-- `r.URL.Query()[k]`, first value (`none`: absent). -/
+def goUrlGet (raw k : String) : Option String :=
+  ((parseQuery (toBytes raw)).lookup (toBytes k)).bind ofBytes
+
+theorem bytePairs_valid (kvs : List (String × String)) : ∀ kv ∈ bytePairs kvs, ValidPair kv := by
+  intro kv hkv
+  simp only [bytePairs, List.mem_map] at hkv
+  obtain ⟨p, _, rfl⟩ := hkv
+  exact ⟨toBytes_lt _, toBytes_lt _⟩
+
+theorem lookup_bytePairs (kvs : List (String × String)) (k : String) :
+    ((bytePairs kvs).lookup (toBytes k)).bind ofBytes = kvs.lookup k := by
+  induction kvs with
+  | nil => rfl
+  | cons kv rest ih =>
+    obtain ⟨k', v⟩ := kv
+    simp only [bytePairs, List.map_cons, List.lookup] at ih ⊢
+    by_cases hk : k = k'
+    · subst hk
+      simp [ofBytes_toBytes]
+    · have hne : toBytes k ≠ toBytes k' := fun h => hk (toBytes_injective h)
+      have h1 : (toBytes k == toBytes k') = false := by simpa using hne
+      have h2 : (k == k') = false := by simpa using hk
+      simp only [h1, h2]
+      exact ih
+
+/-- **goUrl_get_encode** — the `url_get` law of `Lawful`, for the transliteration of net/url:
+    whatever pairs a client escapes and joins, the server's `URL.Query()` finds under each name
+    the first value written for it (no side condition on the names or values). -/
+theorem goUrl_get_encode (kvs : List (String × String)) (k : String) :
+    goUrlGet (goUrlEncode kvs) k = kvs.lookup k := by
+  unfold goUrlGet goUrlEncode
+  rw [toBytes_asciiString _ (encodePairs_ascii _ (bytePairs_valid kvs)),
+      parseQuery_encodePairs _ (bytePairs_valid kvs)]
+  exact lookup_bytePairs kvs k
+
 end ApiFu.C17.Url
